@@ -35,13 +35,17 @@ class AbstractModel:
         return out
 
 
-def evaluate(am: AbstractModel, sources: frozenset, expr: dict, depth=0, per_source=True):
+def evaluate(am: AbstractModel, sources: frozenset, expr: dict, depth=0, per_source=True, tmode='interval'):
     """-> (lower, upper, step name or None)
 
     per_source=True is the compositional reading [[e1.e2]](x) = U_{y in [[e1]](x)} [[e2]](y);
     per_source=False evaluates the right operand of a dot once over the whole intermediate set.
     The two differ only when an intersection / difference stands to the right of a dot and the
-    intermediate set has several elements."""
+    intermediate set has several elements.
+
+    tmode: 'interval' propagates (closure+, closure*) as an interval - sound only for expressions that are
+    monotone in the transitive result (no difference operator downstream); 'plus' / 'star' evaluate exactly
+    under one reading of X* (then lower == upper).  exact_results() gives the four exact readings."""
     t = expr['type']
     if t == 'attackStep':
         return (set(sources), set(sources), expr['name'])
@@ -49,21 +53,21 @@ def evaluate(am: AbstractModel, sources: frozenset, expr: dict, depth=0, per_sou
         r = am.step_field(sources, expr['name'])
         return (set(r), set(r), None)
     if t == 'collect':
-        l1, u1, _ = evaluate(am, sources, expr['lhs'], depth + 1, per_source)
+        l1, u1, _ = evaluate(am, sources, expr['lhs'], depth + 1, per_source, tmode)
         if per_source and _has_setop(am.lang, expr['rhs']):
             lo, up, name = set(), set(), _step_name(expr['rhs'])
             for y in u1:
-                l, u, _ = evaluate(am, frozenset([y]), expr['rhs'], depth + 1, per_source)
+                l, u, _ = evaluate(am, frozenset([y]), expr['rhs'], depth + 1, per_source, tmode)
                 up |= u
                 if y in l1:
                     lo |= l
             return (lo, up, name)
-        lo, _, n1 = evaluate(am, frozenset(l1), expr['rhs'], depth + 1, per_source)
-        _, up, n2 = evaluate(am, frozenset(u1), expr['rhs'], depth + 1, per_source)
+        lo, _, n1 = evaluate(am, frozenset(l1), expr['rhs'], depth + 1, per_source, tmode)
+        _, up, n2 = evaluate(am, frozenset(u1), expr['rhs'], depth + 1, per_source, tmode)
         return (lo, up, n1 if n1 is not None else n2)
     if t in ('union', 'intersection', 'difference'):
-        l1, u1, _ = evaluate(am, sources, expr['lhs'], depth + 1, per_source)
-        l2, u2, _ = evaluate(am, sources, expr['rhs'], depth + 1, per_source)
+        l1, u1, _ = evaluate(am, sources, expr['lhs'], depth + 1, per_source, tmode)
+        l2, u2, _ = evaluate(am, sources, expr['rhs'], depth + 1, per_source, tmode)
         ev = am.events
         if not u1:
             ev.add('setop:lhs-empty')
@@ -82,7 +86,7 @@ def evaluate(am: AbstractModel, sources: frozenset, expr: dict, depth=0, per_sou
             return (l1 & l2, u1 & u2, None)
         return (l1 - u2, u1 - l2, None)
     if t == 'subType':
-        l, u, _ = evaluate(am, sources, expr['stepExpression'], depth + 1, per_source)
+        l, u, _ = evaluate(am, sources, expr['stepExpression'], depth + 1, per_source, tmode)
         keep = lambda s: {x for x in s if am.lang.is_sub(am.types[x], expr['subType'])}
         am.events.add('op:subType')
         if keep(u) != u:
@@ -102,13 +106,13 @@ def evaluate(am: AbstractModel, sources: frozenset, expr: dict, depth=0, per_sou
                 if ve not in exprs:
                     exprs.append(ve)
             if len(exprs) == 1:
-                l, u, _ = evaluate(am, sources, exprs[0], depth + 1, per_source)
+                l, u, _ = evaluate(am, sources, exprs[0], depth + 1, per_source, tmode)
                 return (l, u, None)
         for s in sources:
             ve = am.lang.variable(am.types[s], expr['name'])
             if ve is None:
                 raise KeyError(f'variable {expr["name"]} not visible on {am.types[s]}')
-            l, u, _ = evaluate(am, frozenset([s]), ve, depth + 1, per_source)
+            l, u, _ = evaluate(am, frozenset([s]), ve, depth + 1, per_source, tmode)
             lo |= l
             up |= u
         return (lo, up, None)
@@ -122,14 +126,18 @@ def evaluate(am: AbstractModel, sources: frozenset, expr: dict, depth=0, per_sou
                 if per_source:
                     res = set()
                     for y in frontier:
-                        res |= evaluate(am, frozenset([y]), inner, depth + 1, per_source)[pick]
+                        res |= evaluate(am, frozenset([y]), inner, depth + 1, per_source, tmode)[pick]
                 else:
-                    res = evaluate(am, frozenset(frontier), inner, depth + 1, per_source)[pick]
+                    res = evaluate(am, frozenset(frontier), inner, depth + 1, per_source, tmode)[pick]
                 frontier = res - seen
                 seen |= frontier
             return seen
         plus_lower = closure(set(sources), 0)
         star_upper = closure(set(sources), 1) | set(sources)
+        if tmode == 'plus':          # exact: one or more applications
+            star_upper = set(plus_lower)
+        elif tmode == 'star':        # exact: zero or more applications
+            plus_lower = set(star_upper)
         am.events.add('op:transitive')
         if plus_lower & set(sources):
             am.events.add('transitive:cycle')
@@ -187,3 +195,42 @@ def uses_transitive(lang: Lang, t: str, expr: dict) -> bool:
             return False
         return any(walk(e[k]) for k in ('lhs', 'rhs', 'stepExpression') if k in e)
     return walk(expr)
+
+
+def has_difference(lang: Lang, e, seen=None) -> bool:
+    """does e (variables expanded over all types) contain a difference operator?"""
+    seen = set() if seen is None else seen
+    if not isinstance(e, dict):
+        return False
+    if e['type'] == 'difference':
+        return True
+    if e['type'] == 'variable':
+        if e['name'] in seen:
+            return False
+        seen.add(e['name'])
+        return any(has_difference(lang, v['stepExpression'], seen)
+                   for a in lang.spec['assets'] for v in a['variables'] if v['name'] == e['name'])
+    return any(has_difference(lang, e[k], seen) for k in ('lhs', 'rhs', 'stepExpression') if k in e)
+
+
+def exact_results(am: AbstractModel, sources: frozenset, expr: dict):
+    """the result under each combination of (compositional | whole-set) x (X* = closure+ | closure*)"""
+    out = []
+    for ps in (True, False):
+        for tm in ('plus', 'star'):
+            l, u, n = evaluate(am, sources, expr, 0, ps, tm)
+            out.append((l, n))
+    return out
+
+
+def acceptable(am: AbstractModel, sources: frozenset, expr: dict, got: set) -> bool:
+    """is `got` the result of expr under one of the accepted readings?  For expressions without a difference
+    operator everything between closure+ and closure* is accepted as well (the stated bounds)."""
+    if any(got == r for r, _ in exact_results(am, sources, expr)):
+        return True
+    if not has_difference(am.lang, expr):
+        for ps in (True, False):
+            l, u, _ = evaluate(am, sources, expr, 0, ps, 'interval')
+            if l <= got <= u:
+                return True
+    return False
